@@ -72,6 +72,10 @@ conforms = z3.Function("conforms", Obj, Obj, B)     # C02: value conforms to sch
 winok = z3.Function("winok", Obj, I, I, Obj, I, B)  # forall j<k. conforms(E[eoff+j], v[voff+j])
 winwit = z3.Function("winwit", Obj, I, I, Obj, I, I)
 inp = z3.Function("inp", Obj, B)                    # input object: floats reachable from it are in range
+gen_eq = z3.Function("gen_eq", Obj, Obj, B)         # Python == with d42's Schema.__eq__ override in force
+struct_eq = z3.Function("struct_eq", Obj, Obj, B)   # structural equality of two schemas (C15)
+props_eq = z3.Function("props_eq", Obj, Obj, B)     # Props.__eq__
+subcls = z3.Function("subcls", I, I, B)             # class id a is a subclass of class id b
 anyok = z3.Function("anyok", Obj, I, Obj, B)        # exists j < n. conforms(L[j], v)
 anywit = z3.Function("anywit", Obj, I, Obj, I)
 propf = z3.Function("propf", Obj, Obj, Obj)         # schema.props.get(name): registry.get(name, Nil)
